@@ -234,7 +234,10 @@ Definition obj_match (x y : obj) : bool :=
        then list_eqb (fun x y => bytes_eqb (fr_data x) (fr_data y)) r r'
        else list_eqb frec_match r r')
   | OMeiRsp a b c d e _ i _, OMeiRsp a' b' c' d' e' _ i' _ =>
-      (a =? a') && (b =? b') && (c =? c') && (d =? d') && (e =? e') && info_eqb i i'
+      (* information compared as the sequence of (object id, value) it stands for: a one-element
+         list and its element are the same field value *)
+      (a =? a') && (b =? b') && (c =? c') && (d =? d') && (e =? e') &&
+      list_eqb object_eqb (mei_items i) (mei_items i')
   | _, _ => obj_eqb x y
   end.
 
